@@ -1,9 +1,13 @@
 (* C20 -- The inline-storage vector behaves like a standard vector.
 
    Statements about the model of src/utility/small_vector.{h,tcc} in
-   SmallVec/SmallVecDefs.v, for ALL inline capacities S >= 1 and ALL element
-   classes (params: trivially constructible or not, value of T(), value left
-   in a moved-from object).  Nothing else lives in this file. *)
+   SmallVec/SmallVecDefs.v (the repaired methods), for ALL inline capacities
+   S >= 1 and ALL element classes P = (S, triv, dflt, mv): trivially default
+   constructible or not, value of T(), value left in a moved-from object.
+   [step]/[run] execute the methods as sequences of cell actions and stop with
+   an error on a construction over a live object, a destruction of or
+   assignment to raw memory, a read of raw or indeterminate memory, a leak.
+   Nothing else lives in this file. *)
 From Coq Require Import ZArith List Bool Arith.
 From VV Require Import SmallVec.SmallVecDefs SmallVec.SmallVecProofs.
 Import ListNotations.
@@ -12,3 +16,69 @@ Import ListNotations.
 Theorem C20_init_inv : forall P, 1 <= pS P -> Inv P (init P).
 Proof. exact init_inv. Qed.
 Print Assumptions C20_init_inv.
+
+(* one operation with valid arguments, from any state satisfying the invariant:
+   no lifetime error, the invariant again, and the abstract values are what
+   std::vector specifies (a moved-from source is unspecified but valid) *)
+Theorem C20_step_refines : forall P, 1 <= pS P -> forall o st tgt,
+  Inv P st -> abs (target (op_target o) st) = Some tgt -> valid_op o tgt ->
+  exists st' r, step P o st = Ok (st', r) /\ Inv P st' /\ spec_ok P o st st' r.
+Proof. exact step_refines. Qed.
+Print Assumptions C20_step_refines.
+
+(* every script: [run] never ends in a lifetime error; it stops early only at an
+   operation whose arguments are invalid (Invalid); every recorded step keeps
+   the invariant and agrees with std::vector; at the end both vectors are
+   destroyed without error *)
+Theorem C20_refines_vector : forall P, 1 <= pS P -> forall ops st, Inv P st ->
+  match run P ops st with
+  | Finished tr d => trace_ok P ops st tr /\ length tr = length ops
+  | Invalid tr => trace_ok P ops st tr /\ length tr < length ops
+  | Failed _ _ => False
+  end.
+Proof. exact run_refines. Qed.
+Print Assumptions C20_refines_vector.
+
+(* destruction: no error (nothing destroyed twice, nothing left alive in a
+   released block) and the number of element destructor calls is exactly the
+   number of live objects the two vectors own *)
+Theorem C20_destroy_balanced : forall P, 1 <= pS P -> forall st, Inv P st ->
+  finish P st = Ok (live_count P (sa st) + live_count P (sb st)).
+Proof. exact finish_ok. Qed.
+Print Assumptions C20_destroy_balanced.
+
+(* operator== and operator< read only constructed elements and are list
+   equality / the lexicographic order of the abstract values *)
+Theorem C20_compare_is_list_compare : forall P a b xs ys,
+  sv_inv P a -> sv_inv P b -> abs a = Some xs -> abs b = Some ys ->
+  sv_eq a b = Ok (list_eqb xs ys) /\ sv_lt a b = Ok (lex_ltb xs ys) /\
+  (list_eqb xs ys = true <-> xs = ys).
+Proof.
+  intros P a b xs ys Ha Hb Hx Hy.
+  destruct (compare_ok P a b xs ys Ha Hb Hx Hy) as (H1 & H2).
+  split; [exact H1|split; [exact H2|exact (list_eqb_eq xs ys)]].
+Qed.
+Print Assumptions C20_compare_is_list_compare.
+
+(* non-vacuity: scripts that cross the inline/heap boundary both ways run to
+   the end (so Inv and valid_op are satisfiable along them), for a trivial and
+   a non-trivial element type; an invalid position is reported as Invalid *)
+Definition P_int (S : nat) : params := mkParams S true 0%Z (fun x => x).
+Definition P_str (S : nat) : params := mkParams S false 0%Z (fun _ => 0%Z).
+
+Definition script1 : list op :=
+  [CtorList false [1; 2; 3]%Z; PushBack false 4%Z; Insert false 1 [7; 8; 9]%Z; PushBackSelf false 0;
+   CopyCtor true; Resize false 1; Clear false; MoveAssign false; Insert true 0 [5]%Z;
+   CtorN true 2; CopyAssign false; Reserve true 9; SetAt true 1 6%Z].
+
+Example C20_script_runs_str :
+  match run (P_str 3) script1 (init (P_str 3)) with Finished tr _ => length tr = 13 | _ => False end.
+Proof. vm_compute. reflexivity. Qed.
+
+Example C20_script_runs_int :
+  match run (P_int 2) script1 (init (P_int 2)) with Finished tr _ => length tr = 13 | _ => False end.
+Proof. vm_compute. reflexivity. Qed.
+
+Example C20_invalid_is_invalid :
+  run (P_int 2) [Insert false 1 [5]%Z] (init (P_int 2)) = Invalid [].
+Proof. vm_compute. reflexivity. Qed.
